@@ -1,8 +1,8 @@
 SPECIFICATION Spec
 CONSTANTS
-  Vals <- Pos3
-  OnlyReversals = FALSE
-  MaxLen = 6
+  Vals <- Sym3
+  OnlyReversals = TRUE
+  MaxLen = 8
   Scale = 1
   LawId = "lin"
   LawTable <- EmptyTable
